@@ -22,6 +22,18 @@ def first_bad_op(flat_expected, code):
     return op
 
 
+def _cases(ctx, name, header, exprs, **kw):
+    """ctx.run_cases, except that with a broken Coq build the comparison is skipped (the break itself is
+    reported by finish(); the monitors still search for a failing input)"""
+    if ctx.broken_obligations:
+        try:
+            return ctx.run_cases(name, header, exprs, **kw)
+        except core.CheckError as e:
+            ctx.notes.append("comparison %s skipped, Coq side broken: %s" % (name, str(e)[:200]))
+            return [0] * len(exprs)
+    return ctx.run_cases(name, header, exprs, **kw)
+
+
 def run(ctx, only=None):
     ctx.rule = ("random op sequences over two run ids on MemoryWorkflowStore, SqliteWorkflowStore (per-call and "
                 "single-connection): appends (plain / derived / internal / StopEvent and subclasses, terminal at a "
@@ -31,6 +43,11 @@ def run(ctx, only=None):
                 "poll-interval ticks and query_events with and without limit, followed by a drain phase; distinct "
                 "key = (backend, op-kind signature, cursor classes, terminal position)")
     ctx.prove()
+    # the comparator is not a dependency of the property file: build it explicitly (a failure is a broken
+    # obligation; the implementation-side monitors below still run and report a concrete input if there is one)
+    ok, out = core.coq_make(["theories/Model/EventLogEnc.vo"])
+    if not ok:
+        ctx.broken_obligations.append(("make theories/Model/EventLogEnc.vo", out[-3000:]))
     ctx.trusted.append("source-slice loader: _WorkflowAPI._resolve_event_stream is executed from the text of _api.py "
                        "(starlette is absent), HTTPException replaced by a stand-in carrying detail/status_code")
     ctx.trusted.append("asyncio.Condition / asyncio.sleep wake-ups are modelled as ANotify / ATimeout actions; "
@@ -84,11 +101,11 @@ def run(ctx, only=None):
     cexprs, cdescr, cfails = EL.cursor_cases()
     for key, what in cfails:
         fails.append(dict(key=key, what=what, backend="_stream_events", ops=[], case=-1))
-    cres = ctx.run_cases("stream_cursor", EL.HEADER, cexprs, shard=120)
+    cres = _cases(ctx, "stream_cursor", EL.HEADER, cexprs, shard=120)
     cbad = [cdescr[i] for i, z in enumerate(cres) if z != 0]
     ctx.suite("stream-cursor", combinations=len(cexprs), disagreements=len(cbad), monitor_failures=len(cfails))
     ctx.count(len(cexprs))
-    res = ctx.run_cases("eventlog", EL.HEADER, exprs, shard=60)
+    res = _cases(ctx, "eventlog", EL.HEADER, exprs, shard=60)
     bad = [i for i, z in enumerate(res) if z != 0]
     ctx.programs += nexec
     ctx.disagreements += len(bad) + len(cbad)
